@@ -527,6 +527,26 @@ def naive_probe(ctx):
         except Exception as e:  # noqa: BLE001
             out.append({"naive": dt.isoformat(), "exception": f"{type(e).__name__}: {e}"})
     ctx.notes["naive_datetime_not_judged"] = out
+    # ... but the WIRE DICTIONARY (datetime objects, as boto3 delivers and accepts them) carries a datetime as it is: there a naive
+    # value comes back unchanged (no zone is attached, no instant moves), in every timestamp field - judged
+    LS = W.LS
+    for dt in W.NAIVE:
+        ops = [LS.Operation(operation_id="n1", operation_type=LS.OperationType.STEP, status=LS.OperationStatus.PENDING, start_timestamp=dt,
+                            end_timestamp=dt, step_details=LS.StepDetails(attempt=2, next_attempt_timestamp=dt)),
+               LS.Operation(operation_id="n2", operation_type=LS.OperationType.WAIT, status=LS.OperationStatus.STARTED,
+                            wait_details=LS.WaitDetails(scheduled_end_timestamp=dt))]
+        for op in ops:
+            ctx.case(("naive-wire", op.operation_id, dt.isoformat()))
+            try:
+                back = LS.Operation.from_dict(op.to_dict())
+            except Exception as e:  # noqa: BLE001
+                ctx.violation("roundtrip-raises", f"wire-dict round trip of an operation with naive timestamps raises {type(e).__name__}: {e}",
+                              {"kind": "wire", "naive": dt.isoformat(), "op": op.operation_id})
+                return
+            if back != op:
+                ctx.violation("timestamp-altered", f"wire-dict round trip of {op.operation_type.value} with the naive timestamp {dt.isoformat()} "
+                                                   f"yields a different object: {_short(back)}", {"kind": "wire", "naive": dt.isoformat(), "op": op.operation_id})
+                return
 
 
 # ------------------------------------------------------------------------------------------------ entry points
